@@ -7,7 +7,7 @@ import re
 import subprocess
 import time
 
-from . import build, gen, ops, harness, llir, replay, sym, fp, symex, intrin, sysconsts
+from . import build, gen, ops, harness, llir, replay, sym, fp, symex, intrin, sysconsts, configs
 from .avtypes import VT
 from .sym import M
 
@@ -256,5 +256,41 @@ def validate(cfg, mod, wrappers, seed, per_wrapper=4, max_wrappers=48):
             T = harness.type_of(w)
             if not same(o, T, None, native[ci], expect[ci][0]):
                 res['mismatches'].append({'wrapper': w['name'], 'config': cfg.name, 'rm': rm, 'inputs': replay.fmt(expect[ci][1]),
-                                          'native_' + cc: bytes(native[ci]).hex(), 'interpreter': bytes(expect[ci][0]).hex()})
+                                          'native_' + cc: bytes(native[ci]).hex(), 'interpreter': bytes(expect[ci][0]).hex(),
+                                          '_meta': w, '_ins': expect[ci][1], '_argtypes': [a_[1] for a_ in mod.fns[w['name']].args], '_rty': mod.fns[w['name']].ret})
     return res
+
+
+def model_of(o, T, ins, rm):
+    """oracle-level inputs -> the name->value model replay.replay_cex expects"""
+    m = {'rm': rm}
+    for i, k in enumerate(o.args):
+        if k in 'vwx':
+            for j, v in enumerate(ins[i]):
+                m['a%d_%d' % (i, j)] = int(v)
+        elif k == 'm':
+            for j, v in enumerate(ins[i]):
+                m['m%d_%d' % (i, j)] = bool(v)
+        elif k in 'sLU':
+            m['s%d' % i] = int(ins[i])
+        elif k == 'b':
+            m['b%d' % i] = bool(ins[i])
+    return m
+
+
+def judge_mismatch(prop, mm):
+    """A mismatch between the native GCC build and the encoded clang IR is either an encoder defect or compiler-dependent behaviour of the
+    library (e.g. GCC keeps fma(a, b, -0.0) where clang folds it to a multiply).  Replay the input against the real headers with both
+    compilers and compare with the *oracle*: when a native build violates the property, that is a violation whatever the encoder thinks."""
+    w = mm['_meta']
+    o = ops.BY_NAME[w['op']]
+    if o.oracle is None:
+        return None
+    T = harness.type_of(w)
+    cfg = configs.BY_NAME[mm['config']]
+    try:
+        ops.CTX.rm = RMS[mm['rm']]
+        rp = replay.replay_cex(prop, w, cfg, mm['_argtypes'], mm['_rty'], model_of(o, T, mm['_ins'], mm['rm']), 'result')
+    except Exception as e:
+        return {'confirmed': False, 'detail': {'error': str(e)[-200:]}, 'path': '', 'inputs': [mm['inputs']], 'rm': mm['rm']}
+    return rp
